@@ -244,7 +244,7 @@ def run_job(job):
     elif kind == 'leafspell':
         for case in leafspell.cases_of_job(job):
             r.states += 1
-            if case[0] in ('para', 'setext', 'lazy') and any(l.startswith('    ') for l in case[1][1:]):
+            if case[0] in ('para', 'setext', 'lazy') and any(l.startswith(('    ', '\t', ' \t', '  \t')) for l in case[1][1:]):
                 r.skip('continuation line indented >= 4 (recorded by the property itself, outside the domain)')
                 continue
             for ctx in leafspell.CONTEXTS:
